@@ -21,6 +21,7 @@ import (
 	apifu "github.com/ccbrown/api-fu"
 	"github.com/ccbrown/api-fu/graphql"
 	"github.com/ccbrown/api-fu/graphql/ast"
+	"github.com/ccbrown/api-fu/graphql/schema"
 	"github.com/sirupsen/logrus"
 )
 
@@ -212,7 +213,7 @@ func newWorld(flags Flags) *world {
 		"nested": {Type: inType},
 		"any":    {Type: anyType},
 		"id":     {Type: graphql.IDType},
-		"flag":   {Type: graphql.BooleanType, DefaultValue: graphql.Null},
+		"flag":   {Type: graphql.BooleanType, DefaultValue: schema.Null},
 	}
 	namedIface := &graphql.InterfaceType{
 		Name:   "Named",
@@ -295,7 +296,7 @@ func newWorld(flags Flags) *world {
 			"n": {Type: graphql.IntType, DefaultValue: 7},
 			"s": {Type: graphql.StringType, DefaultValue: "dflt"},
 			"e": {Type: colorType, DefaultValue: "green"},
-			"z": {Type: graphql.FloatType, DefaultValue: graphql.Null},
+			"z": {Type: graphql.FloatType, DefaultValue: schema.Null},
 		},
 		Resolve: dump("withDefault")})
 	q("gated", &graphql.FieldDefinition{Type: graphql.StringType, RequiredFeatures: graphql.NewFeatureSet("featA"),
